@@ -41,6 +41,10 @@ where
 {
     fn work(&mut self) -> Result<BlockRet> {
         let mut o = self.dst.write_buf()?;
+        if o.is_empty() {
+            // A zero length read would look like the connection closing.
+            return Ok(BlockRet::WaitForStream(&self.dst, 1));
+        }
         let size = T::size();
         let mut buffer = vec![0; o.len()];
         // TODO: this read blocks.
@@ -51,18 +55,14 @@ where
         }
         let mut v = Vec::with_capacity(n / size + 1);
 
-        let mut steal = 0;
-        if !self.buf.is_empty() {
-            steal = size - self.buf.len();
-            self.buf.extend(&buffer[0..steal]);
-            v.push(T::parse(&self.buf)?);
-            self.buf.clear();
+        // Bytes of an incomplete sample are kept until the rest arrives,
+        // however many reads that takes.
+        self.buf.extend(&buffer[..n]);
+        let whole = std::cmp::min(self.buf.len() / size, o.len()) * size;
+        for chunk in self.buf[..whole].chunks_exact(size) {
+            v.push(T::parse(chunk)?);
         }
-        let remaining = (n - steal) % size;
-        for pos in (steal..(n - remaining)).step_by(size) {
-            v.push(T::parse(&buffer[pos..pos + size])?);
-        }
-        self.buf.extend(&buffer[n - remaining..n]);
+        self.buf.drain(..whole);
         let n = v.len();
         o.fill_from_iter(v);
         o.produce(n, &[]);
